@@ -76,6 +76,10 @@ def shard_fn(shard, nshards, seed, tier, exe, nhist):
                 nb = rbytes(rng, pick_len(rng, len(model)))
                 cmds.append("SSTRZ 0 x" + nb.hex())
                 plan.append(("setz", nb.split(b"\0")[0]))
+            elif r < 0.70:
+                # the node's own bytes handed back to it with a shorter (or the same) length: truncation in place
+                cmds.append("SSELF 0 %s" % rng.choice(["0", "1", "half", "len-1", "len"]))
+                plan.append(("self",))
             elif r < 0.76:
                 bad = rng.choice([-1, -2, -2147483648, INT_MAX, INT_MAX - 1])
                 cmds.append("SSTR 0 x%s %d" % (b"zz".hex(), bad))
@@ -134,6 +138,13 @@ def shard_fn(shard, nshards, seed, tier, exe, nhist):
                 model = plan[pi][1]
                 pi += 1
                 out.append(c)
+            elif c.startswith("SSELF"):
+                pi += 1
+                w = c.split()[2]
+                L = len(model)
+                n = {"0": 0, "1": min(1, L), "half": L // 2, "len-1": max(0, L - 1), "len": L}[w]
+                model = model[:n]
+                out.append("SSELF 0 %d" % n)
             elif c.startswith("SSTR 0"):
                 pi += 1
                 out.append(c)
@@ -243,6 +254,12 @@ def shard_fn(shard, nshards, seed, tier, exe, nhist):
                     if ret != 1:
                         key, what = "set-failed", "set_string_len(%d bytes) returned %d" % (len(nb), ret)
                     model = nb
+            elif f[0] == "SSELF":
+                n = int(f[2])
+                if int(ln.split()[1]) != 1:
+                    key, what = "set-failed", "set_string_len(own bytes, %d) returned %s" % (n, ln.split()[1])
+                model = model[:n]
+                sh.count("set.own_bytes_truncated_in_place")
             elif f[0] == "SSTRZ":
                 nb = bytes.fromhex(f[2][1:]).split(b"\0")[0]
                 if int(ln.split()[1]) != 1:
